@@ -216,7 +216,8 @@ def _split(obs):
     """Split obligations whose query has a symbolic operator into one per operator."""
     out = []
     for ob in obs:
-        if _has_op(ob["params"]["q"]) and ob["params"].get("split_op"):
+        sq = (ob["params"].get("q") or ()), (ob["params"].get("read") or ())
+        if ob["params"].get("split_op") and _has_op(sq):
             from ..model import OPNAMES
 
             for i, nm in enumerate(OPNAMES):
